@@ -52,6 +52,7 @@ func dfloat(f float64) string {
 }
 func dlabel(l logql.Label) string { return dstr(string(l)) }
 func dop(o logql.BinOp) string    { return strconv.Itoa(int(o)) }
+
 // the compiled regular expression a node carries (its source text): the anchored ^(?:v)$ for a label matcher, v itself for a line filter
 func dre(re *regexp.Regexp) string {
 	if re == nil {
@@ -62,7 +63,9 @@ func dre(re *regexp.Regexp) string {
 func dmatcher(m logql.LabelMatcher) string {
 	return dnode("m", dstr(string(m.Label)), dop(m.Op), dstr(m.Value), dre(m.Re))
 }
-func dextr(e logql.LabelExtractionExpr) string { return dnode("p", dstr(string(e.Label)), dstr(e.Expr)) }
+func dextr(e logql.LabelExtractionExpr) string {
+	return dnode("p", dstr(string(e.Label)), dstr(e.Expr))
+}
 
 // stripParens: when set, ParenExpr / LabelPredicateParen nodes are dumped as their content
 // (comparison with the generator's expectation is modulo redundant parentheses)
